@@ -26,7 +26,9 @@ func (b Branch) Target(ctx context.Context, height int) (*big.Int, error) {
 		return nil, errors.Wrap(err, "first header stats")
 	}
 
-	timeSpan := lastTime - firstTime
+	// Timestamps are unsigned but the time span is signed: when the last median is earlier than the
+	// first the span is negative and must be raised to the lower limit, not wrap around.
+	timeSpan := int64(lastTime) - int64(firstTime)
 
 	// Apply time span limits
 	if timeSpan < 72*600 {
@@ -43,7 +45,7 @@ func (b Branch) Target(ctx context.Context, height int) (*big.Int, error) {
 	// Projected Work (PW) = (W * 600) / TS.
 	projected := &big.Int{}
 	projected.Mul(work, big.NewInt(600))
-	projected.Div(projected, big.NewInt(int64(timeSpan)))
+	projected.Div(projected, big.NewInt(timeSpan))
 
 	// The network computes the target as 2^256 / PW - 1, expressed as (2^256 - PW) / PW so it fits
 	// in 256 bits. This is not the same rounding as converting work to difficulty.
